@@ -479,6 +479,7 @@ struct TableProvider : public resolvo::DependencyProvider {
     /// caching mode: the provider keeps the vectors it has handed out and answers with *copies* of them (which share
     /// their buffers), as a provider with its own metadata cache does; `cache_intact()` re-reads every kept vector
     bool cache_mode = false;
+    bool point_into_candidates = false;
     std::map<uint32_t, resolvo::Candidates> cand_cache;
     std::map<uint32_t, resolvo::Dependencies> dep_cache;
     std::map<std::pair<uint32_t, bool>, resolvo::Vector<resolvo::SolvableId>> filter_cache;
@@ -538,6 +539,14 @@ struct TableProvider : public resolvo::DependencyProvider {
         for (uint32_t s : p.cands) c.candidates.push_back(resolvo::SolvableId{s});
         if (p.has_fav) c.favored = &p.fav;
         if (p.has_lock) c.locked = &p.lock;
+        if (point_into_candidates) {
+            // a provider that points favored / locked at the entries of the vector it returns
+            const auto &cv = std::as_const(c.candidates);
+            for (const resolvo::SolvableId &x : cv) {
+                if (p.has_fav && x.id == p.fav.id) c.favored = &x;
+                if (p.has_lock && x.id == p.lock.id) c.locked = &x;
+            }
+        }
         for (const auto &e : p.excluded)
             c.excluded.push_back(resolvo::ExcludedSolvable{resolvo::SolvableId{e.first},
                                                            resolvo::StringId{e.second}});
@@ -675,6 +684,7 @@ static void solve_case_body(const CaseBlock &c, FILE *o) {
 
     // every second case: a provider that keeps what it hands out and answers with copies
     provider.cache_mode = !c.id.empty() && ((c.id.back() - '0') % 2) == 1;
+    provider.point_into_candidates = !c.id.empty() && ((c.id.back() - '0') % 4) == 0;
     resolvo::Vector<resolvo::SolvableId> result;
     resolvo::String error = resolvo::solve(provider, problem, result);
     std::string_view message = error;
@@ -808,6 +818,14 @@ static void containers_case_body(const CaseBlock &c, FILE *o) {
                 const uint32_t x = must_u32(t.at(2));
                 v[h].push_back(x);
                 print_vec(o, h, v[h]);
+            } else if (op == "vpushmove") {
+                if (!idx(2, i)) {
+                    fprintf(o, "skip index-out-of-range %s\n", line.c_str());
+                } else {
+                    // push_back(T&&) with an element of the vector itself
+                    v[h].push_back(std::move(v[h][i]));
+                    print_vec(o, h, v[h]);
+                }
             } else if (op == "vpushself") {
                 if (!idx(2, i)) {
                     fprintf(o, "skip index-out-of-range %s\n", line.c_str());
@@ -853,6 +871,15 @@ static void containers_case_body(const CaseBlock &c, FILE *o) {
                 std::string text = t.size() > 2 ? t[2] : "";
                 if (text == "\"\"") text.clear();
                 s[h] = resolvo::String(std::string_view(text));
+                print_str(o, h, s[h]);
+            } else if (op == "ssub") {
+                uint32_t k = 0;
+                if (t.size() < 3 || !parse_u32(t[2], k)) { fprintf(o, "skip bad-op %s\n", line.c_str()); continue; }
+                std::string_view own = s[h];
+                s[h] = own.substr(std::min<size_t>(k, own.size()));   // a view into the string itself
+                print_str(o, h, s[h]);
+            } else if (op == "snull") {
+                s[h] = resolvo::String(std::string_view{});            // data() == nullptr, size() == 0
                 print_str(o, h, s[h]);
             } else if (op == "scopy") {
                 s[h] = resolvo::String(s[g]);
